@@ -186,11 +186,10 @@ def backup (s : St) (dest : String) : St × Res :=
   withDB s fun db =>
     let d := dirOf s db
     let old := (s.world.get dest).getD DirSt.empty
-    let data := d.data.foldl (fun acc (x : Nat × FileSt) => setFile acc x.1 { x.2 with synced := x.2.bytes.size }) old.data
-    let hint := match d.hint with
-      | some h => some h
-      | none => old.hint
-    ({ s with world := s.world.set dest { old with data := data, hint := hint } }, .ok)
+    -- the copy holds exactly the source's data files and hint file: what an earlier backup left in `dest` and the
+    -- source no longer has is removed first (`removeStaleBackupFiles`), everything else is overwritten by `CopyDir`
+    let data := d.data.map (fun (x : Nat × FileSt) => (x.1, { x.2 with synced := x.2.bytes.size }))
+    ({ s with world := s.world.set dest { old with data := data, hint := d.hint } }, .ok)
 
 /-! ## database-level iterator (abstract cursor over the sorted snapshot; the per-shard machinery
     is `Model/ShardIter.lean`) -/
